@@ -9,7 +9,7 @@ open Iauthd Iauthd.Proto
     service's query lines exactly when the service is eligible, nothing otherwise -/
 theorem C06_query_iff (p : Bool) (c : Ctx) (cli : XqCli) (i : Nat) (srv : Svc) (hs : getSvc c.svcs i = some srv) :
     (xqCheckSlot p c cli i).1.out =
-      c.out ++ (if xqEligible p srv cli i c.req.flags then xqQueryLines srv cli c.req else []) :=
+      c.out ++ (if xqEligible p srv cli i c.req.flags then xqQueryLines c.lim srv cli c.req else []) :=
   xqCheckSlot_query_iff p c cli i srv hs
 
 /-- eligibility: configured, prerequisites of the protocol delivered (or hurry-up, which sets
@@ -29,10 +29,10 @@ theorem C06_malformed_password (c : Ctx) (cli : XqCli) (pw : Bytes) (h : checkPa
   unfold xqCheckPassword; simp only [h]
 
 /-- field limits of what is forwarded -/
-theorem C06_limits (r : Req) (s : Bytes) :
-    (xqUsername r).length ≤ 10 ∧ (strncpyN 30 s).length ≤ 30 ∧ (strncpyN 63 s).length ≤ 63
-      ∧ (strncpyN 50 s).length ≤ 50 ∧ (strncpyN 511 s).length ≤ 511 ∧ (strncpyN 10 s).length ≤ 10 := by
-  refine ⟨xqUsername_len r, ?_, ?_, ?_, ?_, ?_⟩ <;> (unfold strncpyN; simp [List.length_take]; omega)
+theorem C06_limits (lim : Limits) (r : Req) (n : Nat) (s : Bytes) :
+    (xqUsername lim r).length ≤ lim.user ∧ (strncpyN n s).length ≤ n := by
+  refine ⟨xqUsername_len lim r, ?_⟩
+  unfold strncpyN; simp [List.length_take]; omega
 
 /-- what is copied is a prefix of what the server reported -/
 theorem C06_prefix (n : Nat) (s : Bytes) : strncpyN n s <+: s := by
